@@ -277,6 +277,10 @@ def run(ctx) -> None:
             _check_r5(ctx, p, arm, rel)
     ctx.floor('R2', n_out, 21, 'assigned outputs over all paths')
     ctx.analysed['assigned_outputs'] = n_out
+    ctx.rule('R8', "the discount rate the levelized cost uses is the synchronised one: conversions store a number in the target's own unit, no stale copies (shared)")
+    from rules.rate_sync import check_rate_sync
+    _n = check_rate_sync(ctx, 'R8', only_functions={'sync_interest_rate'})
+    ctx.floor('R8', _n, 4, 'conversion assignments / sync functions of the rate family')
     ctx.undecided('numerical equality with a reference implementation for continuous inputs', 'np.power / np.sum rounding',
                   'the capital-recovery-factor formula itself',
                   'unarmed sibling deviant: cogeneration LCOH charges pumping cost in STANDARD, via averageannualpumpingcosts in FCR, '
